@@ -103,13 +103,18 @@ Definition reconcile (pl : plist) (u : list Z) : plist :=
 Definition pl_default (u : list Z) : plist :=
   sort_by_id (dict_of_pairs (map (fun i => (i, default_phase)) u)).
 
+(* `phase_list = phase_list.deepcopy(); if -1 in phase_list.ids: del phase_list[-1]` :
+   a "not_indexed" entry of the caller's list takes no part in the reconciliation *)
+Definition strip_ni (pl : plist) : plist :=
+  if memZ (-1) (ids pl) then dict_remove (-1) pl else pl.
+
 Definition init_phases (pid : list Z) (pl : option plist) : res plist :=
   match uniq pid with
   | [] => Err IndexError                        (* unique_phase_ids[0] on an empty map *)
   | u0 :: ur =>
       let incl := u0 =? -1 in
       let u := if incl then ur else u0 :: ur in
-      let p := match pl with None => pl_default u | Some pl0 => reconcile pl0 u end in
+      let p := match pl with None => pl_default u | Some pl0 => reconcile (strip_ni pl0) u end in
       Ok (if incl then add_not_indexed p else p)
   end.
 
@@ -149,22 +154,22 @@ Definition select (st : store) (v : view) (s : sel) : res view :=
 (* -------------------------------------------------- phase_id setter *)
 Inductive pval := PScalar (z : Z) | PArr (zs : list Z).
 
-(* `if value == -1 and "not_indexed" not in self.phases.names: add_not_indexed()` *)
-Definition maybe_add_ni (z : Z) (pl : plist) : plist :=
-  if (z =? -1) && negb (memS ni_name (names pl)) then add_not_indexed pl else pl.
+(* `if np.any(np.asarray(value) == -1) and "not_indexed" not in self.phases.names:
+       add_not_indexed()`   (zs = the assigned values; [z] for a scalar) *)
+Definition has_m1 (zs : list Z) : bool := existsb (fun z => z =? -1) zs.
+
+Definition maybe_add_ni (zs : list Z) (pl : plist) : plist :=
+  if has_m1 zs && negb (memS ni_name (names pl)) then add_not_indexed pl else pl.
 
 Definition set_pid (st : store) (v : view) (val : pval) : store * option exn :=
   match val with
   | PScalar z =>
-      (mkStore (fill v z (s_pid st)) (maybe_add_ni z (s_phases st)) (s_props st), None)
+      (mkStore (fill v z (s_pid st)) (maybe_add_ni [z] (s_phases st)) (s_props st), None)
   | PArr zs =>
       match zs with
-      | [] => (st, Some ValueError)     (* no point selected: assigned nothing, then the truth value of an
-                                           empty array raises (numpy >= 2.2); otherwise shape mismatch *)
-      | [z] => (mkStore (fill v z (s_pid st)) (maybe_add_ni z (s_phases st)) (s_props st), None)
+      | [z] => (mkStore (fill v z (s_pid st)) (maybe_add_ni [z] (s_phases st)) (s_props st), None)  (* broadcast *)
       | _ => if Nat.eqb (List.length zs) (count v)
-             then (* assigned, THEN `if value == -1` raises: ambiguous truth value *)
-                  (mkStore (scatter v zs (s_pid st)) (s_phases st) (s_props st), Some ValueError)
+             then (mkStore (scatter v zs (s_pid st)) (maybe_add_ni zs (s_phases st)) (s_props st), None)
              else (st, Some ValueError)                             (* shape mismatch, nothing assigned *)
       end
   end.
@@ -184,21 +189,30 @@ Fixpoint prop_set (k : string) (a : parr) (d : list (string * parr)) : list (str
   | (k', a') :: r => if String.eqb k k' then (k, a) :: r else (k', a') :: prop_set k a r
   end.
 
+(* np.result_type of the two modelled dtypes *)
+Definition promote (a b : dtype) : dtype :=
+  match a, b with DInt, DInt => DInt | _, _ => DFlt end.
+
+Definition all_in (v : view) : bool := forallb (fun b => b) v.        (* np.all(self.is_in_data) *)
+
 Definition set_prop (st : store) (v : view) (k : string) (val : propval) : store * option exn :=
   let n := List.length (s_pid st) in
-  (* array = self.setdefault(key, np.zeros(n)) -- inserts zeros for a new key *)
-  let old := match prop_get k (s_props st) with Some a => a | None => mkArr DFlt (repeat 0 n) end in
-  let props1 := match prop_get k (s_props st) with Some _ => s_props st | None => prop_set k old (s_props st) end in
   let d := match val with VScalar d _ => d | VArr d _ => d end in
-  let arr := cast d old in                                   (* array = array.astype(value.dtype) *)
+  (* array = self.setdefault(key, np.zeros(n, dtype=value.dtype)) -- inserts zeros for a new key *)
+  let old := match prop_get k (s_props st) with Some a => a | None => mkArr d (repeat 0 n) end in
+  let props1 := match prop_get k (s_props st) with Some _ => s_props st | None => prop_set k old (s_props st) end in
+  (* dtype = value.dtype if all points are in the data, else result_type(array.dtype, value.dtype) *)
+  let dt := if all_in v then d else promote (pdt old) d in
+  let arr := cast dt old in                                  (* array = array.astype(dtype) *)
+  let cv := cast1 d dt in                                    (* the assignment converts the values *)
   match val with
   | VScalar _ z =>
-      (mkStore (s_pid st) (s_phases st) (prop_set k (mkArr d (fill v z (pvals arr))) props1), None)
+      (mkStore (s_pid st) (s_phases st) (prop_set k (mkArr dt (fill v (cv z) (pvals arr))) props1), None)
   | VArr _ [z] =>
-      (mkStore (s_pid st) (s_phases st) (prop_set k (mkArr d (fill v z (pvals arr))) props1), None)
+      (mkStore (s_pid st) (s_phases st) (prop_set k (mkArr dt (fill v (cv z) (pvals arr))) props1), None)
   | VArr _ zs =>
       if Nat.eqb (List.length zs) (count v)
-      then (mkStore (s_pid st) (s_phases st) (prop_set k (mkArr d (scatter v zs (pvals arr))) props1), None)
+      then (mkStore (s_pid st) (s_phases st) (prop_set k (mkArr dt (scatter v (map cv zs) (pvals arr))) props1), None)
       else (mkStore (s_pid st) (s_phases st) props1, Some ValueError)
   end.
 
@@ -212,10 +226,10 @@ Definition phases_in_data (st : store) (v : view) : res plist :=
   | IErr e => Err e
   | IMany pl => Ok pl
   | IOne p =>
-      (* PhaseList(phases=phase, ids=self.phases.id_from_name(phase.name)) *)
-      match id_from_name (s_phases st) (pname p) with
-      | Ok i => Ok [(i, p)]
-      | Err e => Err e
+      (* PhaseList(phases=phase, ids=int(ids_in_data[0])) *)
+      match inter with
+      | i :: _ => Ok [(i, p)]
+      | [] => Err IndexError
       end
   end.
 
